@@ -147,8 +147,11 @@ func HarnessC18Defaults() {
 	case 0: // plain properties; n has a default and no type, so that null is a valid value for it
 		n := spec.Schema{}
 		n.Default = 7.0
-		s = objWith(map[string]spec.Schema{"a": numSchema(10.0), "b": numSchema(20.0), "k": numSchema(nil), "n": n})
-		keys = append(keys, "n")
+		// defaults that are the zero value of their kind are defaults like the others
+		zf, zb, zs := spec.Schema{}, spec.Schema{}, spec.Schema{}
+		zf.Default, zb.Default, zs.Default = 0.0, false, ""
+		s = objWith(map[string]spec.Schema{"a": numSchema(10.0), "b": numSchema(20.0), "k": numSchema(nil), "n": n, "zf": zf, "zb": zb, "zs": zs})
+		keys = append(keys, "n", "zf", "zb", "zs")
 		if verifBool() {
 			obj["n"] = nil // present with the value null: must be kept
 		}
